@@ -6,9 +6,65 @@ set_option maxHeartbeats 1000000
 namespace CircBuf
 
 /-! ### drop_range / truncate / clear -/
-maybe theorem tie_drop_range (rs re : Nat) (s : Sys) (h : Inv s.buf) (hnd : NonDefect (dropRange rs re s).1) :
+/-- a run of `drop_range` on a non-empty range that does not end in a defect passed all its assertions -/
+theorem dropRange_nd_facts (rs re : Nat) (s : Sys) (hlt : ¬ re ≤ rs) (hnd : NonDefect (dropRange rs re s).1) :
+    s.buf.start < s.buf.cap ∧ s.buf.size ≤ s.buf.cap ∧ rs < s.buf.size ∧ re ≤ s.buf.size ∧
+      (rs = 0 ∨ re = s.buf.size) := by
+  simp only [dropRange, getBuf_bind, dassert_bind, ite_run, hlt, if_false, ite_false, decide_eq_true_eq] at hnd
+  by_cases h1 : s.buf.start < s.buf.cap
+  · by_cases h2 : s.buf.size ≤ s.buf.cap
+    · by_cases h3 : rs < s.buf.size
+      · by_cases h4 : re ≤ s.buf.size
+        · by_cases h6 : rs = 0 ∨ re = s.buf.size
+          · exact ⟨h1, h2, h3, h4, h6⟩
+          · have h5 : rs < re := by omega
+            simp [h1, h2, h3, h4, h5, h6, NonDefect, Panic.defect] at hnd
+        · simp [h1, h2, h3, h4, NonDefect, Panic.defect] at hnd
+      · simp [h1, h2, h3, NonDefect, Panic.defect] at hnd
+    · simp [h1, h2, NonDefect, Panic.defect] at hnd
+  · simp [h1, NonDefect, Panic.defect] at hnd
+
+theorem dip_range'_zero (a n : Nat) (h : n = 0) : dropInPlace (List.range' a n) = pure () := by
+  subst h; simp [dropInPlace_nil]
+
+maybe /-- `drop_range`: the facts its assertions establish (from the non-defect run of the model) are put into the
+context, both bodies are evaluated under them (no assertion, no index computation can fail there), the
+conditions are split and the two pairs of segments compared up to arithmetic — however they are computed -/
+theorem tie_drop_range (rs re : Nat) (s : Sys) (h : Inv s.buf) (hnd : NonDefect (dropRange rs re s).1) :
     Gen.drop_range (rs, re) s = dropRange rs re s := by
-  tie3 h hnd [Gen.drop_range, dropRange, dropSegments]
+  first
+  | rfl      -- (a body outside the subset is *defined* as the model's function)
+  | (
+     have hW := h.cap_lt
+     by_cases hlt : re ≤ rs
+     · have hm : dropRange rs re s = (.ok (), s) := by simp only [dropRange, hlt, if_true, ite_true, pure_run]
+       rw [hm]
+       simp only [Gen.drop_range, getBuf_bind, getBuf_run, ite_run, ite_bind, bind_assoc_run, pure_run, pure_bind_run, bind_run,
+         decide_eq_true_eq]
+       repeat' (first | rfl | ifsplit1)
+       all_goals (first | rfl | (exfalso; omega))
+     · obtain ⟨f1, f2, f3, f4, f6⟩ := dropRange_nd_facts rs re s hlt hnd
+       have f5 : rs < re := by omega
+       have hcpos : 0 < s.buf.cap := by omega
+       simp only [Gen.drop_range, dropRange, dropSegments, getBuf_bind, getBuf_run, setBuf_bind, setBuf_run,
+         ite_run, ite_bind, bind_assoc_run, pure_run, pure_bind_run, bind_run, liftE_bind, liftE_run, dassert_bind, dassert_run,
+         decide_eq_true_eq, amod, smod, setStart, setSize, checkRange, View.sub,
+         View.splitAt, View.all, View.empty, View.slots, liftE_ite, liftE_ok_eq, liftE_pure_eq, liftE_error_eq, liftE_bind_dist, raise_bind, raise_run, uadd, usub]
+       simp only [f1, f2, f3, f4, f5, f6, hlt, if_true, if_false, ite_true, ite_false, not_true_eq_false, not_false_eq_true,
+         bind_run, pure_run, getBuf_bind, getBuf_run, setBuf_bind, setBuf_run, ite_run, ite_bind, bind_assoc_run, pure_bind_run, liftE_bind, liftE_run]
+       try simp (disch := omega) only [addMod_ite, subMod_ite, if_pos, if_neg]
+       repeat' (first
+         | rfl
+         | (simp (disch := omega) only [getBuf_bind, getBuf_run, setBuf_bind, setBuf_run, ite_run, ite_bind, bind_assoc_run,
+              pure_run, pure_bind_run, bind_run, liftE_bind, liftE_run, raise_bind, raise_run, addMod_ite, if_pos, if_neg])
+         | ifsplit1
+         | esplit1
+         | split)
+       all_goals (try subst_vars)
+       all_goals (try (simp (disch := omega) only [Nat.zero_add, Nat.add_zero, Nat.sub_zero, range'_zero_len, dropInPlace_nil,
+         dip_range'_zero]))
+       all_goals (first | rfl | (exfalso; omega) | (congr 1 <;> first | rfl | omega | (congr 1 <;> first | rfl | omega | (congr 1 <;> first | rfl | omega | (congr 1 <;> first | rfl | omega)))) | skip))
+
 /-- evaluation of the translated body of `truncate_*`: its conditions are split (innermost first; the
 combinations the arithmetic facts exclude are pruned), calls of `drop_range` are replaced by the model's
 (`htie`), what remains is compared -/
@@ -89,10 +145,37 @@ maybe theorem tie_truncate_front (n : Nat) (s : Sys) (h : Inv s.buf) (hnd : NonD
 maybe theorem tie_clear (s : Sys) (h : Inv s.buf) (hnd : NonDefect (clear s).1) : Gen.clear s = clear s := by
   first
   | rfl      -- (a body outside the subset is *defined* as the model's function)
-  | (
+  | (-- `clear` as `truncate_back(0)`
      have hnd' : NonDefect (truncateBack 0 s).1 := hnd
      simp only [Gen.clear, clear, bind_run, pure_run, tie_truncate_back 0 s h hnd']
      cases truncateBack 0 s with
      | mk r s1 => cases r <;> rfl)
+  | (-- any other body: evaluated, against `truncate_back(0)` brought into its two forms
+     have hsz := h.size_le
+     have hW := h.cap_lt
+     have hcl : clear s = truncateBack 0 s := rfl
+     rw [hcl] at hnd ⊢
+     by_cases hz : s.buf.cap = 0 ∨ 0 ≥ s.buf.size
+     · have hm : truncateBack 0 s = (.ok (), s) := by
+         simp only [truncateBack, getBuf_bind, ite_run, hz, if_true, pure_run]
+       rw [hm]
+       truncEval [Gen.clear]
+       all_goals (first | rfl | (exfalso; omega))
+     · have hm : truncateBack 0 s = (dropRange 0 s.buf.size >>= fun _ => do
+           let b' ← getBuf
+           dassert (decide (b'.size = 0))) s := by
+         simp only [truncateBack, getBuf_bind, ite_run, hz, if_false]
+       rw [hm] at hnd ⊢
+       have hnd' := nd_of_bind _ _ s hnd
+       have htie := tie_drop_range 0 s.buf.size s h hnd'
+       truncEval [Gen.clear, htie]
+       all_goals (first | rfl | (exfalso; omega) |
+         (cases dropRange 0 s.buf.size s with
+          | mk r s1 => cases r with
+            | error p => rfl
+            | ok u =>
+              simp only [getBuf_run, dassert_run, pure_run, getBuf_bind, dassert_bind]
+              by_cases hc : s1.buf.size = 0 <;>
+                simp only [hc, decide_true, decide_false, if_true, if_false, ite_true, ite_false, Bool.false_eq_true] <;> rfl)))
 
 end CircBuf
